@@ -1514,6 +1514,20 @@ func (e *Exec) beforeCall(st *State, name string, pos token.Pos, args []Val) {
 		}
 		c.vars["in_loop"] = Val{T: tInt, S: e.sc.idxLit(int64(inLoop))}
 		c.where = fmt.Sprintf("%s:%d", cl.File, cl.Line)
+		// reachability of this call site under the contracts used so far (once per site): a site the
+		// solver proves unreachable makes every clause about it vacuous - reported, unless the clause
+		// itself says the site is unreachable (`false`)
+		if strings.TrimSpace(cl.Expr[j+1:]) != "false" {
+			key := fmt.Sprintf("%s@%d", name, pos)
+			if e.siteCovered == nil {
+				e.siteCovered = map[string]bool{}
+			}
+			if !e.siteCovered[key] && st.pc != "false" {
+				e.siteCovered[key] = true
+				e.siteCovers = append(e.siteCovers, &Obligation{Name: e.fn.String() + "#cover#site:" + name + "@" + e.eng.posString(pos), Kind: "cover", Func: e.fn.String(),
+					Prefix: e.sc.mark(), Goal: "false", PC: st.pc, Script: e.sc, Expect: "sat", Props: e.propsDef, Site: true, Pos: e.eng.posString(pos)})
+			}
+		}
 		// `in_loop == K ==> ...`: the clause is about the call sites in loop K; elsewhere it holds
 		// trivially (and its locals may be out of scope)
 		if m := inLoopGuard.FindStringSubmatch(strings.TrimSpace(cl.Expr[j+1:])); m != nil {
